@@ -621,6 +621,9 @@ def create_new_processor(
     new_processor = deepcopy(processor)
 
     for key in parameter_dict:
-        new_processor.set(key=key, value=parameter_dict[key])
+        # Each run gets its own copy of the value (e.g. a configured default value
+        # which is a numpy array would be shared with the user's pipeline and
+        # with the other runs)
+        new_processor.set(key=key, value=deepcopy(parameter_dict[key]))
 
     return new_processor
